@@ -7,7 +7,7 @@ from typing import AbstractSet, Iterable, Any
 import numpy as np
 
 # pylint: disable=cyclic-import
-from .epsilon_nfa import to_single_state
+from .epsilon_nfa import StateNamer
 from .finite_automaton import to_state, to_symbol
 from .hopcroft_processing_list import HopcroftProcessingList
 # pylint: disable=cyclic-import
@@ -332,13 +332,14 @@ class DeterministicFiniteAutomaton(NondeterministicFiniteAutomaton):
         groups = partition.get_groups()
         # Create a state for this
         to_new_states = {}
+        namer = StateNamer()
         for group in groups:
             if None in group:
                 # Equivalent to the implicit trash state: nothing is accepted
                 # from these states, they do not belong to the minimal DFA
                 states = states.difference(group)
                 continue
-            new_state = to_single_state(group)
+            new_state = namer.get_merged(group)
             for state in group:
                 to_new_states[state] = new_state
         # Build the DFA
